@@ -146,6 +146,8 @@ def rename(x, mp: Dict[str, str]):
             return BoolV(rec(y.cond) if isinstance(y.cond, tuple) else y.cond)
         if isinstance(y, DictV):
             return DictV({k: rec(v) for k, v in y.items.items()})
+        if isinstance(y, Obj) and y.kind == "ite":
+            return Obj("ite", tuple(rec(z) for z in y.data))
         return y
 
     return rec(x)
@@ -178,6 +180,26 @@ def _top_ites(v):
     return out
 
 
+def _find_objite(v):
+    """first conditional *value object* (arms of different kinds, e.g. number / None) inside a value"""
+    if isinstance(v, Obj) and v.kind == "ite":
+        return v
+    if isinstance(v, DictV):
+        for k in sorted(v.items):
+            r = _find_objite(v.items[k])
+            if r is not None:
+                return r
+    return None
+
+
+def _replace_obj(v, target, new):
+    if v is target:
+        return new
+    if isinstance(v, DictV):
+        return DictV({k: _replace_obj(x, target, new) for k, x in v.items.items()})
+    return v
+
+
 def expand_cases(facts, ret, writes, max_split=4):
     """a value that is a conditional expression `ite(c, a, b)` is the same reading as two guarded cases (c -> a, not c -> b): expand the
     top-level conditionals of the returned and written values so that `x = a if c else b` and `if c: x = a else: x = b` compare equal"""
@@ -185,6 +207,20 @@ def expand_cases(facts, ret, writes, max_split=4):
     out = []
     while work:
         f, r, w, depth = work.pop()
+        oi = _find_objite(r)
+        if oi is None:
+            for k in sorted(w):
+                oi = _find_objite(w[k])
+                if oi is not None:
+                    break
+        if oi is not None and depth < max_split:
+            cond, a, b = oi.data
+            for c, val in ((cond, a), (poly._neg_cond(cond) if isinstance(cond, tuple) else (not cond), b)):
+                if c is False or (isinstance(c, tuple) and poly._neg_cond(c) in f):
+                    continue
+                f2 = f if (c is True or c in f) else f + (c,)
+                work.append((f2, _replace_obj(r, oi, val), {k: _replace_obj(x, oi, val) for k, x in w.items()}, depth + 1))
+            continue
         ites = _top_ites(r)
         for k in sorted(w):
             ites += _top_ites(w[k])
@@ -228,6 +264,48 @@ def path_cases(paths):
     return out
 
 
+def value_contradictory(facts) -> bool:
+    """the comparison facts cannot hold together over the reals (equalities and inequalities are taken as linear constraints over the
+    atoms; strict inequalities are relaxed to non-strict ones, which can only make the system more satisfiable: a contradiction found is real)"""
+    from .linear import feasible, lin_of
+
+    lins = []
+    for c in facts:
+        if not (isinstance(c, tuple) and c and c[0] == "cmp" and isinstance(c[2], Frac)):
+            continue
+        op, d = c[1], c[2]
+        cands = [d, -d] if op == "==" else [-d] if op in ("<", "<=") else []
+        for g in cands:
+            try:
+                l = lin_of(g)
+            except Exception:
+                l = None
+            if l is not None:
+                lins.append(l)
+    if len(lins) < 2:
+        return False
+    try:
+        return not feasible(lins)
+    except Exception:
+        return False
+
+
+class CasePath:
+    """a guarded case presented like a path (ret / state.facts / node)"""
+
+    def __init__(self, facts, ret, path):
+        self.ret, self.node, self.path = ret, path.node, path
+        import copy as _copy
+
+        st = _copy.copy(path.state)
+        st.facts = list(facts)
+        self.state = st
+
+
+def cased(paths):
+    return [CasePath(f, r, p) for f, r, p in path_cases(paths)]
+
+
 def compare_class(prop: str, res: Result, repo: Repo, ci: ClassInfo) -> None:
     ref = ref_for(repo, ci)
     if ref is None:
@@ -259,8 +337,13 @@ def compare_class(prop: str, res: Result, repo: Repo, ci: ClassInfo) -> None:
         cw = {ids_c.get(k, k): rename(v, ids_c) for k, v in final_writes(pc).items()}
         for f, r, w in expand_cases(rename(tuple(pc.state.facts), ids_c), rename(pc.ret, ids_c), cw):
             code_cases.append((f, r, w, sorted(ids_c.get(d, d) for d in drives(pc)), pc))
+    def _feasible(f):
+        return not value_contradictory(f)
+
+    code_cases = [c for c in code_cases if _feasible(c[0])]
+    ref_cases = [c for c in ref_cases if _feasible(c[0])]
     for fc, cret, wc, cdrives, pc in code_cases:
-        matches = [rp for rp in ref_cases if compatible(fc, rp[0])]
+        matches = [rp for rp in ref_cases if compatible(fc, rp[0]) and _feasible(tuple(fc) + tuple(rp[0]))]
         guard = " & ".join(show_cond(c) for c in fc)[:200] or "always"
         if not matches:
             res.fail("R-VN", finding(prop, "R-VN", fn, pc.node or fn.node, f"no case of the definition is compatible with the guard [{guard}]", construct=f"{ci.name} guard: {guard}"[:190]))
